@@ -319,3 +319,64 @@ M('c20_plain_lru_cache', 'C20', (CA, """        @functools.wraps(func)
 """))
 M('c20_kwargs_dropped', 'C20', (CA, "            return _func(weakref.ref(self), *args, **kwargs)\n", "            if kwargs and 'z_ion' in kwargs:\n                return _func(weakref.ref(self), *args, dimensions=kwargs.get('dimensions', 3), z_ion=1)\n            return _func(weakref.ref(self), *args, **kwargs)\n"))
 M('c20_metrics_stale_trajectory_key', 'C20', ('metrics.py', "    @weak_lru_cache()\n    def particle_density(self)", "    @functools.lru_cache()\n    def particle_density(self)"), ('metrics.py', "import typing\n", "import functools\nimport typing\n"))
+# ---- round-6 kinds applied elsewhere: results handed out from process-wide buffers ----------------
+M('c01_distances_shared_buffer', 'C01,C06', (TR, """        all_distances = np.array(all_distances).T
+
+        return all_distances
+""", """        all_distances = np.array(all_distances).T
+        buf = _DIST_BUF.setdefault(all_distances.shape, np.empty(all_distances.shape))
+        buf[...] = all_distances
+
+        return buf
+"""), (TR, "class Trajectory(PymatgenTrajectory):\n", "_DIST_BUF: dict = {}\n\n\nclass Trajectory(PymatgenTrajectory):\n"))
+M('c05_matrix_shared_buffer', 'C05', (T, "    transitions = np.zeros((n_sites, n_sites), dtype=int)\n", "    transitions = _MAT_BUF.setdefault(n_sites, np.zeros((n_sites, n_sites), dtype=int))\n    transitions.fill(0)\n"),
+  (T, "def _calculate_transitions_matrix(", "_MAT_BUF: dict = {}\n\n\ndef _calculate_transitions_matrix("))
+M('c09_free_energy_shared_buffer', 'C09', (V, """        return FreeEnergyVolume(
+            data=np.nan_to_num(free_energy),
+""", """        buf = _FE_BUF.setdefault(free_energy.shape, np.empty(free_energy.shape))
+        buf[...] = np.nan_to_num(free_energy)
+        return FreeEnergyVolume(
+            data=buf,
+"""), (V, "@dataclass\nclass Volume:\n", "_FE_BUF: dict = {}\n\n\n@dataclass\nclass Volume:\n"))
+M('c13_drift_shared_buffer', 'C13', (TR, "        return np.mean(displacements, axis=1)[:, None, :]\n", "        out = np.mean(displacements, axis=1)[:, None, :]\n        buf = _DRIFT_BUF.setdefault(out.shape, np.empty(out.shape))\n        buf[...] = out\n        return buf\n"),
+  (TR, "class Trajectory(PymatgenTrajectory):\n", "_DRIFT_BUF: dict = {}\n\n\nclass Trajectory(PymatgenTrajectory):\n"))
+M('c11_pair_rdf_x_is_cached_bins', 'C11', (R, "    bins = np.arange(0, max_dist + resolution, resolution)\n    rdf, _ = np.histogram(distances, bins=bins, density=False)\n", "    bins = _BINS.setdefault((float(max_dist), float(resolution)), np.arange(0, max_dist + resolution, resolution))\n    rdf, _ = np.histogram(distances, bins=bins, density=False)\n"),
+  (R, "def _uniqify_labels(", "_BINS: dict = {}\n\n\ndef _uniqify_labels("))
+# ---- round-5 kinds applied elsewhere: convenience wrappers that memoise per trajectory ------------
+M('c02_transitions_memoised_per_sites', 'C02', (TR, """        return Transitions.from_trajectory(
+            trajectory=self,
+            sites=sites,
+            floating_specie=floating_specie,
+            site_radius=site_radius,
+            site_inner_fraction=site_inner_fraction,
+        )
+""", """        memo = self.__dict__.setdefault('_tr_memo', {})
+        key = (id(sites), floating_specie)
+        if key not in memo:
+            memo[key] = Transitions.from_trajectory(
+                trajectory=self,
+                sites=sites,
+                floating_specie=floating_specie,
+                site_radius=site_radius,
+                site_inner_fraction=site_inner_fraction,
+            )
+        return memo[key]
+"""))
+M('c08_to_volume_memoised_first_resolution', 'C08', (TR, "        return trajectory_to_volume(self, resolution=resolution)\n", "        memo = self.__dict__.setdefault('_vol_memo', {})\n        if 'v' not in memo:\n            memo['v'] = trajectory_to_volume(self, resolution=resolution)\n        return memo['v']\n"))
+M('c06_msd_memoised_on_object', 'C06,C15', (TR, "    def mean_squared_displacement(self) -> np.ndarray:\n", "    def mean_squared_displacement(self) -> np.ndarray:\n        if '_msd' in self.__dict__ and len(self.__dict__['_msd'][0]) == len(self.species):\n            return self.__dict__['_msd']\n        self.__dict__['_msd'] = self._msd_impl()\n        return self.__dict__['_msd']\n\n    def _msd_impl(self) -> np.ndarray:\n"))
+# ---- arguments honoured on the first call only --------------------------------------------------
+M('c09_free_energy_memo_ignores_temperature', 'C09', (V, "        prob = self.probability()\n        free_energy = (", "        if '_fe_memo' in self.__dict__ and self.__dict__['_fe_memo'][0] is self.data:\n            return self.__dict__['_fe_memo'][1]\n        prob = self.probability()\n        free_energy = ("),
+  (V, """        return FreeEnergyVolume(
+            data=np.nan_to_num(free_energy),
+            lattice=self.lattice,
+        )
+""", """        out = FreeEnergyVolume(
+            data=np.nan_to_num(free_energy),
+            lattice=self.lattice,
+        )
+        self.__dict__['_fe_memo'] = (self.data, out)
+        return out
+"""))
+# (a memo of Transitions.jumps() that ignores minimal_residence is not observable through C04/C05: with inner
+# fraction 1 the residence filter never rejects, and with a fraction < 1 the statement only demands a subset)
+M('c13_drift_memo_ignores_species', 'C13', (TR, "        return np.mean(displacements, axis=1)[:, None, :]\n", "        self.__dict__.setdefault('_drift_memo', np.mean(displacements, axis=1)[:, None, :])\n        return self.__dict__['_drift_memo']\n"))
